@@ -61,12 +61,21 @@ RPickA == rstage = "a" /\ \E t \in RtTypes : rcase' = [rcase EXCEPT !.a = t] /\ 
 RNext == RPickO \/ RPickA
 
 (***************************************************************************)
-(* Known deviation (value.py:632-640): KnownValue.__hash__ falls back to    *)
-(* the identity hash only for TypeError; any other exception raised by the  *)
-(* object's __hash__ propagates out of hash(), of every set / dict of       *)
-(* Values and therefore of can_assign / unite_values / is_iterable ...      *)
-(* The class covers exactly: the operation raised the object's own          *)
-(* exception and a KnownValue of that object occurs in an operand.          *)
+(* The former class known-value-hash-exception-propagates (KnownValue's    *)
+(* hash fell back to the identity hash for TypeError only) is repaired by  *)
+(* 3093efb: an operation that raises because an object's __hash__ raises   *)
+(* is a violation like any other.                                          *)
+(***************************************************************************)
+
+(***************************************************************************)
+(* Open deviation (residue of the same mechanism at two sibling sites):    *)
+(* the set-based fast path of MultiValuedValue for unions of ten or more   *)
+(* members hashes the raw objects and catches TypeError only               *)
+(* (value.py:1971-1979 _get_known_subvals, :2014-2018 can_assign): an      *)
+(* object whose __hash__ raises anything else still makes unite_values /   *)
+(* can_assign with such a union raise.  The class covers exactly: the      *)
+(* operation raised the object's own exception, a KnownValue of that       *)
+(* object occurs in an operand and one operand is a big union.             *)
 (***************************************************************************)
 RECURSIVE MentionsOdd(_, _), AnyMentions(_, _), AnyMentionsT(_, _)
 AnyMentions(ts, n) == \E i \in 1..Len(ts) : MentionsOdd(ts[i], n)
@@ -83,9 +92,9 @@ MentionsOdd(t, n) ==
       [] t.k = "tvar"      -> AnyMentions(t.bound, n) \/ AnyMentions(t.cons, n)
       [] t.k = "callable"  -> MentionsOdd(t.ret, n) \/ \E i \in 1..Len(t.ps) : AnyMentions(t.ps[i].t, n)
       [] OTHER             -> FALSE
-
 HashExc == "RuntimeError: __hash__ raises"
-Dev_HashExceptionPropagates(a, b, exc) == exc = HashExc /\ (MentionsOdd(a, "hashraises_rt") \/ MentionsOdd(b, "hashraises_rt"))
-\* runtime API: the object itself is the odd one
-Dev_HashExceptionPropagatesObj(o, exc) == exc = HashExc /\ o.c = "odd" /\ o.v = "hashraises_rt"
+Dev_BigUnionHashPropagates(a, b, exc) ==
+    /\ exc = HashExc
+    /\ MentionsOdd(a, "hashraises_rt") \/ MentionsOdd(b, "hashraises_rt")
+    /\ IsBigUnion(a) \/ IsBigUnion(b)
 =============================================================================
